@@ -127,6 +127,8 @@ def run(ctx):
             if rng.random() < 0.75:
                 name, (kid, ty) = rng.choice(db)
                 v = cfgval(rng, ty)
+                if ty[0] == "R":
+                    v = float(v)      # the value pool also holds an int zero for float keys (builders accept it); a parse returns floats
                 body += kid.to_bytes(4, "little") + enc_val(ty, v)
                 if ty == "R004":      # the value as representable at the key's storage width
                     import struct
